@@ -145,7 +145,11 @@ impl Database {
                     continue;
                 }
                 let table_id = TableRefId::new(schema.id(), table.id());
-                let table = storage.get_table(table_id)?;
+                // a table that another session is dropping right now has no statistics; it must
+                // not make this (possibly unrelated) statement fail
+                let Ok(table) = storage.get_table(table_id) else {
+                    continue;
+                };
                 let txn = table.read().await?;
                 let values = txn.aggreagate_block_stat(&[(
                     BlockStatisticsType::RowCount,
